@@ -85,7 +85,7 @@ CLAIMED = {
     ),
     "C02": (
         "Coq proof (parse/print identities for every accepted text and every well-formed frame, through a verified regex matcher and a column-peeling lemma decided on the regenerated COMMAND_REGEX) + correspondence on Command/Packet/_from_attrs and on the real packet logger + replay",
-        "7 theorems in coq/props/C02.v about coq/model/M_Frame.v: print(parse s) = s for EVERY string the frame constructor accepts, "
+        "10 theorems in coq/props/C02.v about coq/model/M_Frame.v: for a line frame[ < hint][ * evofw3-err][ # comment] (Packet._partition) whatever follows the first '#' is comment and nothing else -- it may contain '*', '<' or further '#' without changing the frame or becoming an error message (tied by a partition correspondence on annotated lines); print(parse s) = s for EVERY string the frame constructor accepts, "
         "parse(print f) = f for EVERY structurally valid frame, length field = byte count, _from_attrs preserves all fields; the fixed "
         "slice offsets are justified by a computed obligation on the regenerated COMMAND_REGEX (columns 2/3/9/9/9/4/3 separated by "
         "single spaces). Tie: Command(frame), Packet.from_port, Command._from_attrs on generated frames/attributes vs the model "
@@ -326,7 +326,7 @@ CLAIMED = {
     ),
     "C03": (
         "Coq proof (payload builders of a core set of constructors vs the REGENERATED payload regexes through the verified regex matcher: finite sweeps lifted by lemma for indexes / log entries / OpenTherm ids / fragment headers, symbolic-string matching with a soundness theorem for payloads with arbitrary data fields, builder-then-decoder equalities for the mode / time / configuration commands; refuted classes by witnesses) + whole-domain correspondence with the real constructors + oracle over all 45 constructors",
-        "20 theorems in coq/props/C03.v. Nine about coq/model/M_ModeCmd.v (= set_zone_mode, set_dhw_mode, set_system_mode, set_system_time, "
+        "23 theorems in coq/props/C03.v. Three about coq/model/M_ParamCmd.v (set_dhw_params / parser_10a0, set_mix_valve_params / parser_1030, put_sensor_temp and put_dhw_temp / parser_30c9, parser_1260: built => accepted and decoded back, for every argument combination not refused and every temperature word). Nine about coq/model/M_ModeCmd.v (= set_zone_mode, set_dhw_mode, set_system_mode, set_system_time, "
         "set_zone_config with _normalise_mode / _normalise_until, AND the decoders parser_2349 / parser_1f41 / parser_2e04 / parser_313f / "
         "parser_000a): for every zone 0..15, every mode argument, EVERY setpoint word, every valid end time (years 1..9999, leap days) and "
         "every duration below FFFFFF, whatever set_zone_mode does not refuse is in the language of the regenerated W|2349 regex (symbolic "
@@ -342,7 +342,7 @@ CLAIMED = {
         "finding); for every index and EVERY setpoint word set_zone_setpoint's payload is accepted for W|2309 and the word reads back "
         "(with C04_temp_encode_decode: the setpoint at wire resolution); whatever get_system_log_entry builds is one of the 64 entries and "
         "accepted; all 256 OpenTherm ids give an accepted RQ|3220 carrying the id; every fragment request not refused is accepted; "
-        "RQ|1030 has no regex at all (refuted). PARTIAL: 15 of 45 constructors are modelled (5 of them together with their decoders); the others, "
+        "RQ|1030 has no regex at all (refuted). PARTIAL: 19 of 45 constructors are modelled (9 of them together with their decoders); the others, "
         "the decoders' own value checks beyond the regex for those, and 'decodes to the values passed in' for names / fan / bind commands are decided by the oracle: every constructor "
         "of CODE_API_MAP over argument grids (in and out of domain): verb|code as registered, Message._from_cmd accepts, decoded values = "
         "arguments at wire resolution. Tie: the models' payloads = the real constructors' over 256 indexes x 6 getters, 70 log indexes, "
